@@ -141,8 +141,9 @@ def _nonzero_guard(P, node, symkey):
     return False
 
 
-def _callers_guard(prog, f, pidx):
-    """Every call site of f passes, for parameter pidx, a variable that is tested non-zero on the path to the call."""
+def _callers_guard(prog, f, pidx, depth=0):
+    """Every call site of f passes, for parameter pidx, a variable that is tested non-zero on the path to the call (or, in a private
+    helper that hands its own parameter on, at every call site of that helper)."""
     callers = [g for g in prog.amc_functions() if f['id'] in g.get('calls', []) and g.get('body') is not None]
     if not callers:
         return False
@@ -168,8 +169,12 @@ def _callers_guard(prog, f, pidx):
                 hops += 1
                 if _symkey(cur) is not None:
                     keys.append(_symkey(cur))
-            if key is None or not any(_nonzero_guard(P, c, k_) for k_ in keys):
+            if key is None:
                 return False
+            if not any(_nonzero_guard(P, c, k_) for k_ in keys):
+                up = [k_ for k_ in keys if k_[0] == 'p']
+                if not (up and depth < 3 and g.get('access') in ('private', 'protected') and _callers_guard(prog, g, up[0][1], depth + 1)):
+                    return False
     return True
 
 
